@@ -115,22 +115,27 @@ def build(script, cfg):
     if cfg["key"]:
         kn = c3.mkname(cfg["key"], False)
         keyring = dns.tsig.Key(kn, KEY_SECRET, "hmac-sha256")
-        m.use_tsig(keyring)
+        m.use_tsig(keyring, tsig_error=cfg.get("terr", 0), other_data=bytes(cfg.get("other", [])))
     return m, index, keyring
 
 
-def render(script, cfg, tid):
+def render(script, cfg, tid, built=None):
+    """one rendering; built = (m, index, keyring) renders an EXISTING message object again"""
     log = []
     RecRenderer.log = log
-    ev_done = {"op": "done", "id": 0, "flags": 0, "max": 0, "t48": [0] * 6, "mac": [0] * 32, "wire": [],
+    ev_done = {"op": "done", "id": 0, "flags": 0, "max": 0, "t48": [0] * 6, "mac": [0] * 32, "wire": [], "mflags": [0, 0],
                "parsed": {"ok": False, "len": 0, "opt": False, "tsig": False, "flags": 0, "counts": [0, 0, 0, 0]}}
     try:
-        m, index, keyring = build(script, cfg)
+        m, index, keyring = built if built is not None else build(script, cfg)
         RecRenderer.index = index
         dns.renderer.Renderer = RecRenderer
         dns.message.time = FixedTime
+        ev_done["mflags"] = [int(m.flags), int(m.flags)]
         try:
-            wire = m.to_wire(max_size=cfg["max"], prefer_truncation=cfg["pt"], want_shuffle=False)
+            try:
+                wire = m.to_wire(max_size=cfg["max"], prefer_truncation=cfg["pt"], want_shuffle=False)
+            finally:
+                ev_done["mflags"][1] = int(m.flags)       # to_wire must not change the message object
             ev_done["res"] = "ok"
             ev_done["wire"] = list(wire)
         except dns.exception.TooBig:
@@ -142,7 +147,8 @@ def render(script, cfg, tid):
             ev_done["mac"] = list(m.tsig[0].mac)
         if ev_done["res"] == "ok":
             try:
-                p = dns.message.from_wire(wire, keyring=keyring)
+                # a TSIG carrying an error (BADTIME ...) is not validated by the projection parse
+                p = dns.message.from_wire(wire, keyring=keyring if not cfg.get("terr") else False)
                 ev_done["parsed"] = {"ok": True, "len": len(wire), "opt": p.opt is not None, "tsig": p.tsig is not None,
                                      "flags": int(p.flags),
                                      "counts": [p.section_count(i) for i in range(4)]}
@@ -170,4 +176,19 @@ def total_size(script, cfg):
 def run_job(job):
     """job = (tid, script, cfg)"""
     tid, script, cfg = job
-    return render(script, cfg, tid)
+    if "seq" not in cfg:
+        return render(script, cfg, tid)
+    # the SAME message object rendered several times (e.g. truncated UDP answer, then the complete TCP one)
+    out = []
+    built = None
+    for i, (mx, pt) in enumerate(cfg["seq"]):
+        c = {k: v for k, v in cfg.items() if k != "seq"}
+        c["max"] = mx
+        c["pt"] = pt
+        if built is None:
+            try:
+                built = build(script, c)
+            except Exception:
+                built = None
+        out.append(render(script, c, "%s.r%d" % (tid, i + 1), built))
+    return out
